@@ -7,6 +7,12 @@ enum} and T / V basic, enum or Serializable (one level of generics, upper-case e
 member names).  json.dumps(x.toJson()) must succeed; canon(C.fromJson(x.toJson()))
 and canon(C.loads(x.dumps())) must equal canon(x) (sets as sets, tuples as tuples,
 NaN-aware, exact types).
+
+"Field for field" is judged over the fields the class DECLARES (the annotated public attributes the generator wrote into the
+class body), not over whatever the library's own `_fields` happens to list: a declared field the library forgets would
+otherwise vanish from both sides of the comparison.  Field names are drawn from the whole domain the library accepts as a
+field name (any identifier not starting with "_", not "type_id", not hiding a Serializable member): lower, UPPER, UPPER_SNAKE,
+single letters, digits, CamelCase, mixedCase, trailing underscore, builtin-like, non-ASCII identifiers.
 """
 import json
 import math
@@ -21,6 +27,13 @@ LEVEL = "exploration"
 SHARD_TIMEOUT = {"quick": 600, "thorough": 3000}
 
 _N = [0]
+DECLARED = {}                  # generated class -> the field names its class body declares (annotation + default), in order
+
+
+def declared_fields(v):
+    """the fields of an instance: the ones its class declares, then whatever else the library lists"""
+    d = DECLARED.get(type(v), ())
+    return tuple(d) + tuple(f for f in v._fields if f not in d)
 
 
 def plan(tier, seed):
@@ -54,7 +67,7 @@ def jcanon(v):
     if isinstance(v, SerializableEnum):
         return ("enum", type(v).__name__, jcanon(v.value))
     if isinstance(v, Serializable):
-        return ("obj", type(v).__name__, tuple((f, jcanon(getattr(v, f))) for f in v._fields))
+        return ("obj", type(v).__name__, tuple((f, jcanon(getattr(v, f, "<no such attribute>"))) for f in declared_fields(v)))
     return ("other", t.__name__, repr(v)[:40])
 
 
@@ -81,19 +94,27 @@ class Shapes(object):
         self.enum_kind = kind
         self.Enum = type("JE" + uid, (SerializableEnum,), vals)
         self.enum_members = [getattr(self.Enum, nm) for nm in names]
-        self.Leaf = type("JL" + uid, (Serializable,), {"__annotations__": {"n": int, "s": str}, "n": 0, "s": ""})
+        # field names: the whole domain of names the library takes as a field (see sergen.FIELD_NAME_POOLS), in every class
+        self.kwargs_built = self.kwargs_not_applied = 0
+        self.name_families = []
+        self.leaf_n, self.leaf_s = ln, ls = G.field_names(r, 2)
+        self.Leaf = type("JL" + uid, (Serializable,), {"__annotations__": {ln: int, ls: str}, ln: 0, ls: ""})
+        DECLARED[self.Leaf] = (ln, ls)
         self.Enum_ = self.Enum
-        self.Mid = type("JM" + uid, (Serializable,), {"__annotations__": {"leaf": self.Leaf, "e": self.Enum, "f": float, "flag": bool},
-                                                     "leaf": None, "e": self.enum_members[0], "f": 0.0, "flag": False})
+        self.mid_leaf, self.mid_e, self.mid_f, self.mid_flag = ml, me, mf, mg = G.field_names(r, 4)
+        self.Mid = type("JM" + uid, (Serializable,), {"__annotations__": {ml: self.Leaf, me: self.Enum, mf: float, mg: bool},
+                                                     ml: None, me: self.enum_members[0], mf: 0.0, mg: False})
+        DECLARED[self.Mid] = (ml, me, mf, mg)
         basic = [int, float, str, bool]
         T_choices = basic + [self.Enum, self.Leaf, self.Mid]
         K_choices = [int, str, self.Enum]
         ann, defaults = {}, {}
         self.fields = []
         n = r.randint(3, 9)
+        top_names = G.field_names(r, n)
         for i in range(n):
             shape = r.choice(["basic", "basic", "obj", "enum", "list", "set", "tuple", "dict", "dict"])
-            name = r.choice(["a", "val", "items", "m", "t", "Name", "z"]) + str(i)
+            name = top_names[i]
             if shape == "basic":
                 T = r.choice(basic)
                 ann[name] = T
@@ -132,10 +153,30 @@ class Shapes(object):
         ns = dict(defaults)
         ns["__annotations__"] = ann
         self.Top = type("JT" + uid, (Serializable,), ns)
+        DECLARED[self.Top] = tuple(top_names)
         self.class_defaults = {k: (v, jcanon(v)) for k, v in defaults.items()}
         # a subclass that declares fields of its own (the library serializes the fields a class declares itself)
-        self.Sub = type("JU" + uid, (self.Top,), {"__annotations__": {"extra_n": int, "extra_s": str, "extra_l": typing.List[int]},
-                                                  "extra_n": 0, "extra_s": "", "extra_l": None})
+        self.sub_names = sn, ss, sl = G.field_names(r, 3, taken=top_names)
+        self.Sub = type("JU" + uid, (self.Top,), {"__annotations__": {sn: int, ss: str, sl: typing.List[int]}, sn: 0, ss: "", sl: None})
+        DECLARED[self.Sub] = (sn, ss, sl)
+        self.name_families = [G.name_family(nm) for nm in (ln, ls, ml, me, mf, mg) + tuple(top_names) + (sn, ss, sl)]
+
+    def build(self, cls, pairs):
+        """an instance with the given field values: through the constructor's keyword arguments (as in the documentation's example)
+        or by assigning the attributes; either way the object handed to the checks HOLDS the values (the property is about
+        objects whose fields hold values of their annotated types - how they got there is not its subject)"""
+        if self.r.random() < 0.5:
+            o = cls(**dict(pairs))
+            self.kwargs_built += 1
+            for k, v in pairs:
+                if getattr(o, k, None) is not v:
+                    self.kwargs_not_applied += 1
+                    setattr(o, k, v)
+        else:
+            o = cls()
+            for k, v in pairs:
+                setattr(o, k, v)
+        return o
 
     # ----- values of an annotated type
     def basic(self, T):
@@ -157,9 +198,10 @@ class Shapes(object):
         if T is self.Enum:
             return self.r.choice(self.enum_members)
         if T is self.Leaf:
-            return self.Leaf(n=self.basic(int), s=self.basic(str))
+            return self.build(self.Leaf, [(self.leaf_n, self.basic(int)), (self.leaf_s, self.basic(str))])
         if T is self.Mid:
-            return self.Mid(leaf=self.of(self.Leaf), e=self.of(self.Enum), f=self.basic(float), flag=self.basic(bool))
+            return self.build(self.Mid, [(self.mid_leaf, self.of(self.Leaf)), (self.mid_e, self.of(self.Enum)), (self.mid_f, self.basic(float)),
+                                         (self.mid_flag, self.basic(bool))])
         raise TypeError(T)
 
     def key(self, K):
@@ -193,15 +235,17 @@ class Shapes(object):
                 v[self.key(K)] = self.of(V)
                 return name + "[k]=v"
             if shape == "obj" and T is self.Leaf:
-                v.n = v.n + 1
-                return name + ".n"
+                setattr(v, self.leaf_n, getattr(v, self.leaf_n) + 1)
+                return name + "." + self.leaf_n
             if shape == "obj" and T is self.Mid:
-                v.leaf.s = v.leaf.s + "!"
-                return name + ".leaf.s"
+                lf = getattr(v, self.mid_leaf)
+                setattr(lf, self.leaf_s, getattr(lf, self.leaf_s) + "!")
+                return name + "." + self.mid_leaf + "." + self.leaf_s
         return None
 
     def make_sub(self):
-        return self.Sub(extra_n=self.basic(int), extra_s=self.basic(str), extra_l=[self.basic(int) for _ in range(self.r.randint(0, 3))])
+        sn, ss, sl = self.sub_names
+        return self.build(self.Sub, [(sn, self.basic(int)), (ss, self.basic(str)), (sl, [self.basic(int) for _ in range(self.r.randint(0, 3))])])
 
     def make(self):
         r = self.r
@@ -263,16 +307,56 @@ def run_shard(cfg):
 
     def field_diff(a, b):
         out = []
-        for f in a._fields:
+        for f in declared_fields(a):
             if jcanon(getattr(a, f)) != jcanon(getattr(b, f, "<missing>")):
                 out.append((f, short(getattr(a, f), 20), short(getattr(b, f, None), 20)))
         return out[:3]
+
+    def dropped(o, doc, path=""):
+        """declared fields of o (and of the objects nested in its fields) that have no key in the JSON document made of o"""
+        out = []
+        if not isinstance(doc, dict):
+            return out
+        for f in DECLARED.get(type(o), ()):
+            v = getattr(o, f, None)
+            if f not in doc:
+                out.append(path + f)
+            elif type(v) in DECLARED:
+                out.extend(dropped(v, doc[f], path + f + "."))
+            elif type(v) in (list, tuple) and isinstance(doc[f], list) and len(doc[f]) == len(v):
+                for k, (e, de) in enumerate(zip(v, doc[f])):
+                    if type(e) in DECLARED:
+                        out.extend(dropped(e, de, "%s%s[%d]." % (path, f, k)))
+            elif type(v) is dict and isinstance(doc[f], dict) and len(doc[f]) == len(v):
+                for k, (e, de) in enumerate(zip(v.values(), doc[f].values())):
+                    if type(e) in DECLARED:
+                        out.extend(dropped(e, de, "%s%s{%d}." % (path, f, k)))
+        return out
+
+    def differs(how, x, back, doc, shapes_of):
+        """x did not come back field for field: say whether declared fields were left out of the document, or came back different"""
+        d = field_diff(x, back)
+        gone = dropped(x, doc)
+        if gone:
+            fams = sorted({G.name_family(g.split(".")[-1]) for g in gone})
+            viol("declared-field-left-out-of-json", "%s: the document has no entry for the declared field(s) %r (name style: %s) - "
+                 "keys %r, declared %r; differs in %r" % (how, gone[:6], ", ".join(fams), sorted(doc)[:12] if isinstance(doc, dict) else doc,
+                                                          DECLARED.get(type(x)), d), {"object": short(x, 120), "missing": gone[:12], "name_styles": fams, "diff": d})
+            return
+        kinds = sorted({shapes_of.get(f, "?") for f, _, _ in d})
+        viol("%s-differs:%s" % (how, "+".join(kinds)), "%s differs in %r" % ({"fromJson-toJson": "fromJson(toJson(x))", "loads-dumps": "loads(dumps(x))"}[how], d),
+             {"object": short(x, 120), "diff": d})
 
     for si in range(cfg["shapes"]):
         sh = Shapes(r, "s%dx%dy%d" % (cfg["seed"], cfg["shard"], si))
         c.inc("class_shapes")
         for name, (shape, T) in sh.fields:
             c.inc("field_shape_" + shape)
+        for fam in sh.name_families:
+            c.inc("field_name_" + fam)
+        for cls_ in (sh.Leaf, sh.Mid, sh.Top, sh.Sub):
+            # (coverage only: does the library list exactly the declared names?  the verdict comes from the round trips below)
+            c.inc("classes_listing_exactly_the_declared_fields" if tuple(cls_._fields) == DECLARED[cls_] else "classes_listing_other_fields_than_declared")
         kept = []                    # earlier decoded results the application still holds: (object, canonical form at decode time)
         for i in range(cfg["objects"]):
             if i % 25 == 24:
@@ -283,7 +367,9 @@ def run_shard(cfg):
                     ys = sh.Sub.fromJson(xs.toJson())
                     zs = sh.Sub.loads(xs.dumps())
                     c.inc("subclass_objects")
-                    if jcanon(ys) != want_s or jcanon(zs) != want_s or type(ys) is not sh.Sub:
+                    if (jcanon(ys) != want_s or jcanon(zs) != want_s) and dropped(xs, xs.toJson()):
+                        differs("fromJson-toJson", xs, ys, xs.toJson(), {})
+                    elif jcanon(ys) != want_s or jcanon(zs) != want_s or type(ys) is not sh.Sub:
                         viol("subclass-roundtrip-differs", "a subclass of a Serializable class (own fields %r) does not round-trip its own fields: toJson gives %s" % (
                             sh.Sub._fields, short(xs.toJson(), 80)), {"object": short(xs, 100)})
                     else:
@@ -337,9 +423,7 @@ def run_shard(cfg):
             try:
                 y = sh.Top.fromJson(j)
                 if jcanon(y) != want:
-                    d = field_diff(x, y)
-                    kinds = sorted({shapes_of.get(f, "?") for f, _, _ in d})
-                    viol("fromJson-toJson-differs:%s" % "+".join(kinds), "fromJson(toJson(x)) differs in %r" % (d,), {"object": short(x, 120), "diff": d})
+                    differs("fromJson-toJson", x, y, j, shapes_of)
                 else:
                     c.inc("roundtrip_fromJson_toJson")
                     # results stay what they were: the application keeps some, changes others in place
@@ -357,11 +441,10 @@ def run_shard(cfg):
             except Exception as e:
                 viol("fromJson-raised", "fromJson(toJson(x)) raised %r for %s" % (e, short(x, 40)), {"object": short(x, 100)})
             try:
-                z = sh.Top.loads(x.dumps())
+                dumped = x.dumps()
+                z = sh.Top.loads(dumped)
                 if jcanon(z) != want:
-                    d = field_diff(x, z)
-                    kinds = sorted({shapes_of.get(f, "?") for f, _, _ in d})
-                    viol("loads-dumps-differs:%s" % "+".join(kinds), "loads(dumps(x)) differs in %r" % (d,), {"object": short(x, 120), "diff": d})
+                    differs("loads-dumps", x, z, json.loads(dumped), shapes_of)
                 else:
                     c.inc("roundtrip_loads_dumps")
             except Exception as e:
@@ -388,6 +471,8 @@ def run_shard(cfg):
             c.inc("earlier_results_rechecked")
             if jcanon(old) != want_old:
                 viol("earlier-result-changed-by-later-decode", "an object decoded earlier changed while later documents were decoded", {"object": short(old, 120)})
+        c.inc("objects_built_through_constructor_kwargs", sh.kwargs_built)
+        c.inc("constructor_kwargs_not_applied", sh.kwargs_not_applied)
         for fname, (dv, dcanon) in sh.class_defaults.items():
             c.inc("class_defaults_rechecked")
             if jcanon(getattr(sh.Top, fname)) != dcanon or getattr(sh.Top, fname) is not dv:
@@ -401,11 +486,15 @@ def finish(tier, seed, results):
     need(m["counters"], ["objects", "json_dumps_ok", "roundtrip_fromJson_toJson", "roundtrip_loads_dumps", "field_shape_basic", "field_shape_obj",
                          "field_shape_enum", "field_shape_list", "field_shape_set", "field_shape_tuple", "field_shape_dict",
                          "in_place_mutations", "roundtrip_after_in_place_change", "subclass_roundtrips", "earlier_results_rechecked",
-                         "class_defaults_rechecked", "decoded_values_mutated_in_place", "failed_encodes_before_repair", "containers_above_16384"], inconclusive)
+                         "class_defaults_rechecked", "decoded_values_mutated_in_place", "failed_encodes_before_repair", "containers_above_16384",
+                         "objects_built_through_constructor_kwargs"] +
+         ["field_name_" + fam for fam in ("lower", "single-lower", "single-upper", "all-upper", "all-upper-snake", "all-upper-digit", "leading-upper",
+                                          "mixed-case", "lower-snake-digit", "trailing-underscore", "non-ascii", "non-ascii-upper")], inconclusive)
     cov = {
         "evaluations": m["evaluations"],
         "distinct_nontrivial": m["distinct_nontrivial"],
-        "rule": "one evaluation = one object of a generated Serializable class (3-9 fields drawn from the documented annotation shapes: basic, "
+        "rule": "one evaluation = one object of a generated Serializable class (3-9 fields, named from the whole domain of names the library takes as "
+                "a field - lower, UPPER, UPPER_SNAKE, single letters, digits, CamelCase, trailing underscore, non-ASCII - and drawn from the documented annotation shapes: basic, "
                 "nested Serializable, enum, List[T], Set[T], Tuple[T1..Tn], Dict[K,V] with K in {int,str,enum}) with values of the annotated "
                 "types (empty containers, None for container fields, huge/negative ints, NaN/inf, unicode, int keys) sent through "
                 "toJson/json.dumps/fromJson and dumps/loads. distinct = distinct JSON texts",
